@@ -306,7 +306,22 @@ def monitor (pid : String) (c0 a : List String) : String :=
               | _ => none).flatten.drop 1
             ((lines.zip replies).map fun (l, r) => Spec.Mon.probeExpect cfg (tlsMode == "implicit") (SmtpV.Text.toUpper l) r).flatten
           else [])
-       | "C19" => Spec.Mon.check19 cfg.maxLine (tag == "TAG=cmdonly" || tag == "TAG=cmdonly-sharedseg") input evs ++ Spec.Mon.check8 evs
+       | "C19" => Spec.Mon.check19 cfg.maxLine (tag == "TAG=cmdonly" || tag == "TAG=cmdonly-sharedseg" || tag == "TAG=cmdonly-flood") input evs ++ Spec.Mon.check8 evs ++
+           (if tag != "TAG=cmdonly-flood" then [] else
+            -- the generator vouches: short command lines, each answered with exactly one reply (no DATA, AUTH, STARTTLS, QUIT).  A line is a
+            -- protocol error when it is empty, cannot be split into verb and argument, or its verb is none the server knows.  The fourth
+            -- such line is answered, then the closing notice, and nothing after it: j + 3 replies with the greeting; fewer than four: all answered
+            let lines := (Spec.Mon.linesLF input [] []).filter (fun l => l.getLast? == some 10)
+            let isErr (l : Bytes) : Bool := match SmtpV.Parse.parseCmd l with
+              | none => true
+              | some (cmd, _) => cmd.isEmpty || SmtpV.Server.verbOf (SmtpV.Text.toUpper cmd) == .unknown
+            let errIdx := (lines.zipIdx.filter (fun p => isErr p.1)).map (·.2)
+            let nrep := ((evs.filterMap fun e => match e with | .w bs => Spec.ReplySyntax.parse bs | _ => none).flatten).length
+            match errIdx[3]? with
+            | some j =>
+              if nrep == j + 3 then [] else
+                [s!"C19 the connection was not given up after the fourth unrecognised or malformed command: {nrep} replies written, {j + 3} expected (greeting, one per command up to that one, the closing notice)"]
+            | none => if nrep == lines.length + 1 then [] else [])
        | "C13" => Spec.Mon.check13 cfg.lmtp cfg.lmtpSess be.data drecs evs ++
            (if tag == "TAG=lastfail" then Spec.Mon.checkLastFail evs else [])
        | "C01" => Spec.Mon.checkBait input evs ++ Spec.Mon.checkExpect expect drecs
